@@ -3,34 +3,116 @@ import CashewsVerif.Spec.TxBody
 /- Own writes only: the step machine (parking, locking, sleeping) computes the sequential meaning of the body. -/
 namespace CashewsVerif.TxSched
 
-def Task.bst (t : Task) : BodySt := { ov := t.ov, del := t.del, results := t.results }
+def Task.bst (t : Task) : BodySt :=
+  { ov := t.ov, del := t.del, results := t.results, done := t.cmuts, pend := t.pend, cinc := t.cinc }
 
-/-- continuation form of "the task has so far done what the spec does": whatever reads are still to come,
-the spec run of the whole program on (reads so far ++ those) continues like the spec run of what is left -/
-def Cont (p0 rem : List Cmd) (t : Task) : Prop :=
-  ∀ fr, specBody p0 (t.reads ++ fr) {} = specBody rem fr t.bst
+/-- the spec is compositional: a part that ran to its end on exactly the reads `rd` can be continued -/
+theorem specBody_append (p q : List Cmd) (fr : List (Option Int)) :
+    ∀ (rd : List (Option Int)) (s s' : BodySt), specBody p rd s = .normal s' [] →
+      specBody (p ++ q) (rd ++ fr) s = specBody q fr s' := by
+  induction p with
+  | nil =>
+    intro rd s s' h
+    simp only [specBody, BodyRes.normal.injEq] at h
+    obtain ⟨rfl, rfl⟩ := h
+    rfl
+  | cons c r ih =>
+    intro rd s s' h
+    cases c <;> simp only [specBody, List.cons_append] at h ⊢
+    case set k v => exact ih _ _ _ h
+    case incr k n =>
+      cases hg : s.ov.get k with
+      | some v => simp only [hg] at h ⊢; exact ih _ _ _ h
+      | none =>
+        simp only [hg] at h ⊢
+        by_cases hd : k ∈ s.del
+        · simp only [hd, if_true] at h ⊢; exact ih _ _ _ h
+        · simp only [hd, if_false] at h ⊢
+          cases rd with
+          | nil => simp at h
+          | cons x rd' => simp only [List.cons_append] at h ⊢; exact ih _ _ _ h
+    case get k =>
+      by_cases hd : k ∈ s.del
+      · simp only [hd, if_true] at h ⊢; exact ih _ _ _ h
+      · simp only [hd, if_false] at h ⊢
+        cases hg : s.ov.get k with
+        | some v => simp only [hg] at h ⊢; exact ih _ _ _ h
+        | none =>
+          simp only [hg] at h ⊢
+          cases rd with
+          | nil => simp at h
+          | cons x rd' => simp only [List.cons_append] at h ⊢; exact ih _ _ _ h
+    case delete k => exact ih _ _ _ h
+    case expire k =>
+      by_cases hd : k ∈ s.del
+      · simp only [hd, if_true] at h ⊢; exact ih _ _ _ h
+      · simp only [hd, if_false] at h ⊢
+        cases hg : s.ov.get k with
+        | some v => simp only [hg] at h ⊢; exact ih _ _ _ h
+        | none =>
+          simp only [hg] at h ⊢
+          cases rd with
+          | nil => simp at h
+          | cons x rd' =>
+            cases x with
+            | none => simp only [List.cons_append] at h ⊢; exact ih _ _ _ h
+            | some v => simp only [List.cons_append] at h ⊢; exact ih _ _ _ h
+    case setx k v e =>
+      cases hg : s.ov.get k with
+      | some v0 => simp only [hg] at h ⊢; exact ih _ _ _ h
+      | none =>
+        simp only [hg] at h ⊢
+        by_cases hd : k ∈ s.del
+        · simp only [hd, if_true] at h ⊢; exact ih _ _ _ h
+        · simp only [hd, if_false] at h ⊢
+          cases rd with
+          | nil => simp at h
+          | cons x rd' => simp only [List.cons_append] at h ⊢; exact ih _ _ _ h
+    case sleep d => exact ih _ _ _ h
+    case raise b => simp at h
+    case nestIn f => exact ih _ _ _ h
+    case nestOut => exact ih _ _ _ h
+    case commit => exact ih _ _ _ h
+    case rollback => exact ih _ _ _ h
 
-/-- what must hold when a task is done, by outcome -/
-def Done (p0 : List Cmd) (reads : List (Option Int)) (mine : List Mut) : Outcome → Prop
-  | .returned rs => ∃ s, specBody p0 reads {} = .normal s [] ∧ rs = s.results ∧ mine = commitMuts s
-  | .raisedBody => specBody p0 reads {} = .raised ∧ mine = []
-  | .raisedLocked => mine = []
+/-- "the task has so far done what the spec does": its program is `p ++ rem`, and the spec run of the executed part `p`
+on the reads so far ends in the task's buffer, results and ghosts -/
+def Pre (p0 rem : List Cmd) (t : Task) : Prop :=
+  ∃ p, p0 = p ++ rem ∧ specBody p t.reads {} = .normal t.bst []
+
+/-- the body stopped before its end, at `rest` (of which `Q` holds): only its explicit commits reached the store -/
+def Stopped (p0 : List Cmd) (reads : List (Option Int)) (mine : List Mut) (cinc : List (Nat × Int))
+    (Q : List Cmd → Prop) : Prop :=
+  ∃ p rest s, p0 = p ++ rest ∧ Q rest ∧ specBody p reads {} = .normal s [] ∧ mine = s.done ∧ cinc = s.cinc
+
+/-- what must hold when a task is done, by outcome (`mine` = the store mutations made by its steps, `cinc` = its
+increments made durable) -/
+def Done (p0 : List Cmd) (reads : List (Option Int)) (mine : List Mut) (cinc : List (Nat × Int)) : Outcome → Prop
+  | .returned rs => ∃ s, specBody p0 reads {} = .normal s [] ∧ rs = s.results ∧ mine = s.done ++ commitMuts s ∧
+      cinc = s.cinc ++ s.pend
+  | .raisedBody => specBody p0 reads {} = .raised ∧ Stopped p0 reads mine cinc (fun rest => ∃ r, rest = .raise false :: r)
+  | .raisedBase => specBody p0 reads {} = .raised ∧ Stopped p0 reads mine cinc (fun rest => ∃ r, rest = .raise true :: r)
+  | .raisedLocked => Stopped p0 reads mine cinc (fun _ => True)
+  | .cancelled => Stopped p0 reads mine cinc (fun _ => True)
 
 /-- the invariant of a parked task inside its transaction; `mine` = the store mutations its steps made so far -/
 def OWpark (p0 : List Cmd) (t : Task) (mine : List Mut) : Prop :=
   match t.pc with
-  | .lockTry _ _ => mine = [] ∧ Cont p0 t.prog t
-  | .lockSleep _ _ _ => mine = [] ∧ Cont p0 t.prog t
-  | .bodySleep _ => mine = [] ∧ Cont p0 t.prog t
-  | .seedGet k n => mine = [] ∧ Cont p0 (.incr k n :: t.prog) t ∧ t.ov.get k = none ∧ k ∉ t.del
-  | .readGet k => mine = [] ∧ Cont p0 (.get k :: t.prog) t ∧ t.ov.get k = none ∧ k ∉ t.del
-  | .expGet k => mine = [] ∧ Cont p0 (.expire k :: t.prog) t ∧ t.ov.get k = none ∧ k ∉ t.del
-  | .existsGet k v e => mine = [] ∧ Cont p0 (.setx k v e :: t.prog) t ∧ t.ov.get k = none ∧ k ∉ t.del
-  | .commitDel => mine = [] ∧ specBody p0 t.reads {} = .normal t.bst [] ∧ t.del ≠ []
-  | .commitSet => mine = (if t.del ≠ [] then [Mut.delMany t.del] else []) ∧
+  | .lockTry _ _ => mine = t.cmuts ∧ Pre p0 t.prog t
+  | .lockSleep _ _ _ => mine = t.cmuts ∧ Pre p0 t.prog t
+  | .bodySleep _ => mine = t.cmuts ∧ Pre p0 t.prog t
+  | .seedGet k n => mine = t.cmuts ∧ Pre p0 (.incr k n :: t.prog) t ∧ t.ov.get k = none ∧ k ∉ t.del
+  | .readGet k => mine = t.cmuts ∧ Pre p0 (.get k :: t.prog) t ∧ t.ov.get k = none ∧ k ∉ t.del
+  | .expGet k => mine = t.cmuts ∧ Pre p0 (.expire k :: t.prog) t ∧ t.ov.get k = none ∧ k ∉ t.del
+  | .existsGet k v e => mine = t.cmuts ∧ Pre p0 (.setx k v e :: t.prog) t ∧ t.ov.get k = none ∧ k ∉ t.del
+  | .commitDel => mine = t.cmuts ∧ specBody p0 t.reads {} = .normal t.bst [] ∧ t.del ≠ []
+  | .commitSet => mine = t.cmuts ++ (if t.del ≠ [] then [Mut.delMany t.del] else []) ∧
       specBody p0 t.reads {} = .normal t.bst [] ∧ t.ov ≠ []
-  | .unlocking _ o => Done p0 t.reads mine o
-  | .finished o => Done p0 t.reads mine o
+  | .unlocking _ o => Done p0 t.reads mine t.cinc o
+  | .finished o => Done p0 t.reads mine t.cinc o
+  | .midDel => mine = t.cmuts ∧ Pre p0 (.commit :: t.prog) t ∧ t.del ≠ []
+  | .midSet => mine = t.cmuts ++ (if t.del ≠ [] then [Mut.delMany t.del] else []) ∧ Pre p0 (.commit :: t.prog) t ∧ t.ov ≠ []
+  | .midUnlock _ => mine = t.cmuts ∧ Pre p0 t.prog t
   | .start => False
   | .direct _ => False
 
@@ -39,8 +121,9 @@ theorem bst_setxApply (t : Task) (k : Nat) (v : Int) (e p : Bool) :
   unfold setxApply setxSpec
   split <;> simp [Task.bst]
 
-theorem spec_localCmd {t t' : Task} {c : Cmd} (hl : localCmd t c = some t') (rest : List Cmd) (fr : List (Option Int)) :
-    specBody (c :: rest) fr t.bst = specBody rest fr t'.bst ∧ t'.reads = t.reads := by
+theorem spec_localCmd {t t' : Task} {c : Cmd} (hc : t.ctx = true) (hl : localCmd t c = some t') (rest : List Cmd)
+    (fr : List (Option Int)) :
+    specBody (c :: rest) fr t.bst = specBody rest fr t'.bst ∧ t'.reads = t.reads ∧ t'.cmuts = t.cmuts := by
   cases c <;> simp only [localCmd] at hl
   case set k v => split at hl <;> simp at hl; subst hl; simp [specBody, Task.bst]
   case incr k n =>
@@ -55,16 +138,15 @@ theorem spec_localCmd {t t' : Task} {c : Cmd} (hl : localCmd t c = some t') (res
         simp [specBody, Task.bst, hv, hd]
     · simp at hl
   case get k =>
+    rw [if_pos hc] at hl
     split at hl
-    · split at hl
-      · rename_i hd
-        simp at hl; subst hl; simp [specBody, Task.bst, hd]
-      · rename_i hd
-        split at hl <;> simp at hl
-        subst hl
-        rename_i v hv
-        simp [specBody, Task.bst, hd, hv]
-    · simp at hl
+    · rename_i hd
+      simp at hl; subst hl; simp [specBody, Task.bst, hd]
+    · rename_i hd
+      split at hl <;> simp at hl
+      subst hl
+      rename_i v hv
+      simp [specBody, Task.bst, hd, hv]
   case delete k => split at hl <;> simp at hl; subst hl; simp [specBody, Task.bst]
   case expire k =>
     split at hl
@@ -85,7 +167,8 @@ theorem spec_localCmd {t t' : Task} {c : Cmd} (hl : localCmd t c = some t') (res
         have b := bst_setxApply t k v e true
         rw [b.1, b.2]
         have hv' : t.bst.ov.get k = some v0 := hv
-        simp [specBody, hv']
+        refine ⟨by simp [specBody, hv'], rfl, ?_⟩
+        unfold setxApply; split <;> rfl
       · rename_i hv
         split at hl <;> simp at hl
         subst hl
@@ -94,77 +177,140 @@ theorem spec_localCmd {t t' : Task} {c : Cmd} (hl : localCmd t c = some t') (res
         rw [b.1, b.2]
         have hv' : t.bst.ov.get k = none := hv
         have hd' : k ∈ t.bst.del := hd
-        simp [specBody, hv', hd']
+        refine ⟨by simp [specBody, hv', hd'], rfl, ?_⟩
+        unfold setxApply; split <;> rfl
     · simp at hl
   case sleep d => simp at hl
-  case raise => simp at hl
+  case raise b => simp at hl
   case nestIn f => simp at hl; subst hl; simp [specBody, Task.bst]
   case nestOut => simp at hl; subst hl; simp [specBody, Task.bst]
+  case commit =>
+    rw [if_pos hc] at hl
+    split at hl <;> simp at hl
+    subst hl
+    rename_i hcond
+    simp [specBody, Task.bst, hcond.1, hcond.2.1, commitMutsOf]
+  case rollback =>
+    rw [if_pos hc] at hl
+    split at hl <;> simp at hl
+    subst hl
+    simp [specBody, Task.bst]
 
-theorem OWpark_abort_locked {p0 : List Cmd} {t : Task} : OWpark p0 (abort t .raisedLocked) [] := by
-  unfold abort; split <;> simp [OWpark, Done]
+/-- one more command of the body has been executed: `t1` is the task afterwards, `fr` what its backend read returned -/
+theorem Pre_extend {p0 : List Cmd} {c : Cmd} {rest : List Cmd} {t t1 : Task} (h : Pre p0 (c :: rest) t)
+    (fr : List (Option Int)) (hs : specBody [c] fr t.bst = .normal t1.bst []) (hr : t1.reads = t.reads ++ fr) :
+    Pre p0 rest t1 := by
+  obtain ⟨p, hp, hsp⟩ := h
+  refine ⟨p ++ [c], by simp [hp], ?_⟩
+  rw [hr, specBody_append p [c] fr _ _ _ hsp]
+  exact hs
 
-theorem OWpark_abort_body {p0 : List Cmd} {t : Task} (h : specBody p0 t.reads {} = .raised) :
-    OWpark p0 (abort t .raisedBody) [] := by
-  unfold abort; split <;> simp [OWpark, Done, h]
+theorem Pre_localCmd {p0 : List Cmd} {c : Cmd} {rest : List Cmd} {t t' : Task} (hc : t.ctx = true)
+    (h : Pre p0 (c :: rest) t) (hl : localCmd t c = some t') : Pre p0 rest t' := by
+  have g := spec_localCmd hc hl [] []
+  refine Pre_extend h [] ?_ (by simp [g.2.1])
+  rw [g.1]; rfl
+
+theorem Pre_end {p0 : List Cmd} {t : Task} (h : Pre p0 [] t) : specBody p0 t.reads {} = .normal t.bst [] := by
+  obtain ⟨p, hp, hsp⟩ := h
+  simpa [hp] using hsp
+
+theorem Pre_raise {p0 : List Cmd} {b : Bool} {rest : List Cmd} {t : Task} (h : Pre p0 (.raise b :: rest) t) :
+    specBody p0 t.reads {} = .raised := by
+  obtain ⟨p, hp, hsp⟩ := h
+  have := specBody_append p (.raise b :: rest) [] _ _ _ hsp
+  rw [hp]
+  simpa [specBody] using this
+
+theorem Pre_stopped {p0 rem : List Cmd} {t : Task} (h : Pre p0 rem t) {Q : List Cmd → Prop} (hq : Q rem) :
+    Stopped p0 t.reads t.cmuts t.cinc Q := by
+  obtain ⟨p, hp, hsp⟩ := h
+  exact ⟨p, rem, t.bst, hp, hq, hsp, rfl, rfl⟩
+
+/-- a task whose only change is its stale `pc` / `prog` (and locks) -/
+theorem Pre_congr {p0 rem : List Cmd} {t t' : Task} (h : Pre p0 rem t) (hb : t'.bst = t.bst) (hr : t'.reads = t.reads) :
+    Pre p0 rem t' := by
+  obtain ⟨p, hp, hsp⟩ := h
+  exact ⟨p, hp, by rw [hr, hb]; exact hsp⟩
+
+theorem abort_keeps (t : Task) (o : Outcome) :
+    (abort t o).reads = t.reads ∧ (abort t o).cmuts = t.cmuts ∧ (abort t o).cinc = t.cinc := by
+  unfold abort; split <;> simp
+
+/-- interrupted (LockedError, cancellation): only the explicit commits so far reached the store -/
+theorem OWpark_abort_stop {p0 rem : List Cmd} {t : Task} {mine : List Mut} (hm : mine = t.cmuts) (h : Pre p0 rem t)
+    (o : Outcome) (ho : o = .raisedLocked ∨ o = .cancelled) : OWpark p0 (abort t o) mine := by
+  have hs := Pre_stopped h (Q := fun _ => True) trivial
+  have k := abort_keeps t o
+  have hd : Done p0 (abort t o).reads mine (abort t o).cinc o := by
+    rw [k.1, k.2.2, hm]
+    rcases ho with rfl | rfl <;> exact hs
+  unfold abort at hd ⊢
+  split <;> simp_all [OWpark]
+
+theorem OWpark_abort_body {p0 : List Cmd} {b : Bool} {rest : List Cmd} {t : Task} {mine : List Mut}
+    (hm : mine = t.cmuts) (h : Pre p0 (.raise b :: rest) t) :
+    OWpark p0 (abort t (if b then .raisedBase else .raisedBody)) mine := by
+  have hs := Pre_stopped h (Q := fun r => ∃ r', r = .raise b :: r') ⟨rest, rfl⟩
+  have hr := Pre_raise h
+  have k := abort_keeps t (if b then .raisedBase else .raisedBody)
+  have hd : Done p0 (abort t (if b then .raisedBase else .raisedBody)).reads mine
+      (abort t (if b then .raisedBase else .raisedBody)).cinc (if b then .raisedBase else .raisedBody) := by
+    rw [k.1, k.2.2, hm]
+    cases b <;> exact ⟨hr, hs⟩
+  unfold abort at hd ⊢
+  split <;> simp_all [OWpark]
 
 theorem OWpark_afterCommit {p0 : List Cmd} {t : Task} {mine : List Mut}
-    (h : specBody p0 t.reads {} = .normal t.bst []) (hm : mine = commitMuts t.bst) :
+    (h : specBody p0 t.reads {} = .normal t.bst []) (hm : mine = t.cmuts ++ commitMuts t.bst) :
     OWpark p0 (afterCommit t) mine := by
-  unfold afterCommit; split <;> simp only [OWpark, Done] <;> exact ⟨t.bst, h, rfl, hm⟩
+  unfold afterCommit; split <;> simp only [OWpark, Done] <;> exact ⟨t.bst, h, rfl, hm, rfl⟩
 
-theorem OWpark_lockOrFail {p0 : List Cmd} {t : Task} {k : Nat} {prog : List Cmd}
-    (h : Cont p0 prog t) : OWpark p0 (lockOrFail t k prog) [] := by
+theorem OWpark_lockOrFail {p0 : List Cmd} {t : Task} {k : Nat} {prog : List Cmd} {mine : List Mut}
+    (hm : mine = t.cmuts) (h : Pre p0 prog t) : OWpark p0 (lockOrFail t k prog) mine := by
   unfold lockOrFail
   split
-  · exact OWpark_abort_locked
-  · simp only [OWpark]; exact ⟨trivial, h⟩
+  · exact OWpark_abort_stop hm h _ (Or.inl rfl)
+  · simp only [OWpark]; exact ⟨hm, Pre_congr h rfl rfl⟩
 
-theorem OWpark_settle {p0 : List Cmd} (now : Nat) (prog : List Cmd) (t : Task) (hc : t.ctx = true)
-    (h : Cont p0 prog t) : OWpark p0 (settle now prog t) [] := by
-  refine settle_ind (R := fun rem t => t.ctx = true ∧ Cont p0 rem t) (P := fun t' => OWpark p0 t' []) now
-    ?_ ?_ ?_ prog t ⟨hc, h⟩
-  · intro t c rest t' ⟨hc, h⟩ hl
-    refine ⟨(localCmd_frame hl).2.2.2.2.1.trans hc, ?_⟩
-    intro fr
-    have := spec_localCmd hl rest fr
-    rw [this.2, h fr, this.1]
-  · intro t ⟨hc, h⟩
-    have h0 : specBody p0 t.reads {} = .normal t.bst [] := by
-      have := h []
-      simpa [specBody] using this
+theorem OWpark_settle {p0 : List Cmd} (now : Nat) (prog : List Cmd) (t : Task) {mine : List Mut} (hc : t.ctx = true)
+    (hm : mine = t.cmuts) (h : Pre p0 prog t) : OWpark p0 (settle now prog t) mine := by
+  refine settle_ind (R := fun rem t => t.ctx = true ∧ mine = t.cmuts ∧ Pre p0 rem t) (P := fun t' => OWpark p0 t' mine) now
+    ?_ ?_ ?_ prog t ⟨hc, hm, h⟩
+  · intro t c rest t' ⟨hc, hm, h⟩ hl
+    exact ⟨(localCmd_frame hl).2.2.2.2.1.trans hc, hm.trans (spec_localCmd hc hl [] []).2.2.symm, Pre_localCmd hc h hl⟩
+  · intro t ⟨hc, hm, h⟩
+    have h0 := Pre_end h
     unfold endOfProg
     rw [if_pos hc]
     split
     · rename_i hd
-      simp only [OWpark]; exact ⟨trivial, h0, hd⟩
+      simp only [OWpark]; exact ⟨hm, h0, hd⟩
     · rename_i hd
       split
       · rename_i ho
         simp only [OWpark]
         refine ⟨?_, h0, ho⟩
-        simp at hd; simp [hd]
+        simp at hd; simp [hd, hm]
       · rename_i ho
         refine OWpark_afterCommit (t := { t with prog := [] }) h0 ?_
         simp at hd ho
-        simp [commitMuts, Task.bst, hd, ho]
-  · intro t c rest ⟨hc, h⟩ hl
+        simp [commitMuts, commitMutsOf, Task.bst, hd, ho, hm]
+  · intro t c rest ⟨hc, hm, h⟩ hl
     cases c <;> simp only [park] <;> (try rw [if_pos hc])
     case sleep d =>
       simp only [OWpark]
-      exact ⟨trivial, fun fr => by rw [show ({ t with prog := rest, pc := PC.bodySleep (now + 5 * d) } : Task).reads = t.reads from rfl, h fr]; simp [specBody, Task.bst]⟩
-    case raise =>
-      refine OWpark_abort_body ?_
-      have := h []
-      simpa [specBody] using this
-    case set k v => exact OWpark_lockOrFail h
-    case delete k => exact OWpark_lockOrFail h
+      refine ⟨hm, Pre_congr (t := { t with prog := rest }) ?_ rfl rfl⟩
+      exact Pre_extend h [] (by simp [specBody, Task.bst]) (by simp)
+    case raise b => exact OWpark_abort_body hm h
+    case set k v => exact OWpark_lockOrFail hm h
+    case delete k => exact OWpark_lockOrFail hm h
     case incr k n =>
       split
       · rename_i hh
         simp only [localCmd, hc, hh, Bool.and_self, if_true] at hl
         simp only [OWpark]
-        refine ⟨trivial, h, ?_, ?_⟩
+        refine ⟨hm, Pre_congr h rfl rfl, ?_, ?_⟩
         · cases hg : t.ov.get k with
           | none => rfl
           | some v => simp [hg] at hl
@@ -172,11 +318,11 @@ theorem OWpark_settle {p0 : List Cmd} (now : Nat) (prog : List Cmd) (t : Task) (
           cases hg : t.ov.get k with
           | none => simp [hg, hd] at hl
           | some v => simp [hg] at hl
-      · exact OWpark_lockOrFail h
+      · exact OWpark_lockOrFail hm h
     case get k =>
       simp only [localCmd, hc, if_true] at hl
       simp only [OWpark]
-      refine ⟨trivial, h, ?_, ?_⟩
+      refine ⟨hm, Pre_congr h rfl rfl, ?_, ?_⟩
       · by_cases hd : k ∈ t.del
         · simp [hd] at hl
         · cases hg : t.ov.get k with
@@ -188,20 +334,20 @@ theorem OWpark_settle {p0 : List Cmd} (now : Nat) (prog : List Cmd) (t : Task) (
       · rename_i hh
         simp only [localCmd, hc, hh, Bool.and_self, if_true] at hl
         simp only [OWpark]
-        refine ⟨trivial, h, ?_, ?_⟩
+        refine ⟨hm, Pre_congr h rfl rfl, ?_, ?_⟩
         · by_cases hd : k ∈ t.del
           · simp [hd] at hl
           · cases hg : t.ov.get k with
             | none => rfl
             | some v => simp [hd, hg] at hl
         · intro hd; simp [hd] at hl
-      · exact OWpark_lockOrFail h
+      · exact OWpark_lockOrFail hm h
     case setx k v e =>
       split
       · rename_i hh
         simp only [localCmd, hc, hh, Bool.and_self, if_true] at hl
         simp only [OWpark]
-        refine ⟨trivial, h, ?_, ?_⟩
+        refine ⟨hm, Pre_congr h rfl rfl, ?_, ?_⟩
         · cases hg : t.ov.get k with
           | none => rfl
           | some v => simp [hg] at hl
@@ -209,9 +355,46 @@ theorem OWpark_settle {p0 : List Cmd} (now : Nat) (prog : List Cmd) (t : Task) (
           cases hg : t.ov.get k with
           | none => simp [hg, hd] at hl
           | some v => simp [hg] at hl
-      · exact OWpark_lockOrFail h
+      · exact OWpark_lockOrFail hm h
     case nestIn f => simp [localCmd] at hl
     case nestOut => simp [localCmd] at hl
+    case commit =>
+      split
+      · rename_i hd
+        simp only [OWpark]; exact ⟨hm, Pre_congr h rfl rfl, hd⟩
+      · rename_i hd
+        split
+        · rename_i ho
+          simp only [OWpark]
+          refine ⟨?_, Pre_congr h rfl rfl, ho⟩
+          simp at hd; simp [hd, hm]
+        · rename_i ho
+          have hd' : t.del = [] := by simpa using hd
+          have ho' : t.ov = [] := by simpa using ho
+          simp only [OWpark]
+          refine ⟨hm, ?_⟩
+          refine Pre_extend h [] ?_ (by simp)
+          simp [specBody, Task.bst, hd', ho', commitMutsOf]
+    case rollback =>
+      simp only [OWpark]
+      refine ⟨hm, ?_⟩
+      refine Pre_extend h [] ?_ (by simp)
+      simp [specBody, Task.bst]
+
+/-- an explicit `tx.commit()` has issued its backend commands -/
+theorem OWpark_afterMid {p0 : List Cmd} (now : Nat) {t : Task} {mine : List Mut} (hc : t.ctx = true)
+    (hm : mine = t.cmuts ++ commitMutsOf t.ov t.del) (h : Pre p0 (.commit :: t.prog) t) :
+    OWpark p0 (afterMid now t) mine := by
+  have hp : ∀ t1 : Task, t1.bst = (⟨[], [], t.results, t.cmuts ++ commitMutsOf t.ov t.del, [], t.cinc ++ t.pend⟩ : BodySt) →
+      t1.reads = t.reads → Pre p0 t.prog t1 := by
+    intro t1 hb hr
+    refine Pre_extend h [] ?_ (by simp [hr])
+    rw [hb]; simp [specBody, Task.bst]
+  unfold afterMid
+  split
+  · exact OWpark_settle now _ _ hc hm (hp _ rfl rfl)
+  · simp only [OWpark]
+    exact ⟨hm, hp _ rfl rfl⟩
 
 theorem taskStep_isTx (tid now : Nat) (store : Store) (lock : Locks) (t : Task) :
     (taskStep tid now store lock t).task.isTx = t.isTx ∧
@@ -266,9 +449,26 @@ theorem taskStep_isTx (tid now : Nat) (store : Store) (lock : Locks) (t : Task) 
     cases ls with
     | nil => rw [taskStep_unlocking_nil _ _ _ _ _ hpc]; exact ⟨rfl, id⟩
     | cons l rest => rw [taskStep_unlocking_cons _ _ _ _ _ hpc]; exact ⟨rfl, id⟩
-
-theorem Done_congr {p0 : List Cmd} {reads : List (Option Int)} {mine : List Mut} {o : Outcome}
-    (h : Done p0 reads mine o) : Done p0 reads (mine ++ []) o := by simpa using h
+  case midDel =>
+    rw [taskStep_midDel _ _ _ _ _ hpc]
+    dsimp only
+    split
+    · exact ⟨rfl, id⟩
+    · exact ⟨(Frame_afterMid _ _).isTx, fun hc => (Frame_afterMid _ _).ctx.trans hc⟩
+  case midSet =>
+    rw [taskStep_midSet _ _ _ _ _ hpc]
+    exact ⟨(Frame_afterMid _ _).isTx, fun hc => (Frame_afterMid _ _).ctx.trans hc⟩
+  case midUnlock ls =>
+    cases ls with
+    | nil =>
+      rw [taskStep_midUnlock_nil _ _ _ _ _ hpc]
+      exact ⟨(Frame_settle _ _ _).isTx, fun hc => (Frame_settle _ _ _).ctx.trans hc⟩
+    | cons l rest =>
+      rw [taskStep_midUnlock_cons _ _ _ _ _ hpc]
+      dsimp only
+      split
+      · exact ⟨(Frame_settle _ _ _).isTx, fun hc => (Frame_settle _ _ _).ctx.trans hc⟩
+      · exact ⟨rfl, id⟩
 
 /-- one step of a task inside its transaction keeps the invariant; `mine` grows by the step's mutations -/
 theorem OW_taskStep {p0 : List Cmd} {t : Task} {mine : List Mut} (hc : t.ctx = true) (h : OWpark p0 t mine)
@@ -277,12 +477,12 @@ theorem OW_taskStep {p0 : List Cmd} {t : Task} {mine : List Mut} (hc : t.ctx = t
   cases hpc : t.pc <;> simp only [OWpark, hpc] at h
   case lockTry k left =>
     obtain ⟨hm, hcont⟩ := h
-    subst hm
     cases hf : lockFree lock (lockKeyOf t.mode k) now
     · rw [taskStep_lockTry_busy _ _ _ _ _ hpc hf]
-      simp only [OWpark, List.append_nil]; exact ⟨trivial, hcont⟩
+      simp only [OWpark, List.append_nil]; exact ⟨hm, Pre_congr hcont rfl rfl⟩
     · rw [taskStep_lockTry_free _ _ _ _ _ hpc hf]
-      exact OWpark_settle now _ _ hc hcont
+      simp only [List.append_nil]
+      exact OWpark_settle now _ _ hc hm (Pre_congr hcont rfl rfl)
   case lockSleep k left w =>
     rw [taskStep_lockSleep _ _ _ _ _ hpc]
     simp only [OWpark, hpc, List.append_nil]; exact h
@@ -294,75 +494,62 @@ theorem OW_taskStep {p0 : List Cmd} {t : Task} {mine : List Mut} (hc : t.ctx = t
     simp only [OWpark, hpc, List.append_nil]; exact h
   case seedGet k n =>
     obtain ⟨hm, hcont, hov, hdel⟩ := h
-    subst hm
     rw [taskStep_seedGet _ _ _ _ _ hpc]
-    refine OWpark_settle now _ _ hc ?_
-    intro fr
-    have := hcont (store k :: fr)
-    simp only [specBody, Task.bst, hov, hdel, if_false] at this
-    simp only [List.append_assoc, List.singleton_append]
-    rw [this]; rfl
+    simp only [List.append_nil]
+    refine OWpark_settle now _ _ hc hm (Pre_extend hcont [store k] ?_ rfl)
+    simp [specBody, Task.bst, hov, hdel]
   case readGet k =>
     obtain ⟨hm, hcont, hov, hdel⟩ := h
-    subst hm
     rw [taskStep_readGet _ _ _ _ _ hpc]
-    refine OWpark_settle now _ _ hc ?_
-    intro fr
-    have := hcont (store k :: fr)
-    simp only [specBody, Task.bst, hov, hdel, if_false] at this
-    simp only [List.append_assoc, List.singleton_append]
-    rw [this]; rfl
+    simp only [List.append_nil]
+    refine OWpark_settle now _ _ hc hm (Pre_extend hcont [store k] ?_ rfl)
+    simp [specBody, Task.bst, hov, hdel]
   case expGet k =>
     obtain ⟨hm, hcont, hov, hdel⟩ := h
-    subst hm
     rw [taskStep_expGet _ _ _ _ _ hpc]
+    simp only [List.append_nil]
     have e := expBuffer_frame t k (store k)
-    refine OWpark_settle now _ _ (e.2.2.2.2.1.trans hc) ?_
+    have hcm : (expBuffer t k (store k)).cmuts = t.cmuts := by cases store k <;> rfl
+    refine OWpark_settle now _ _ (e.2.2.2.2.1.trans hc) (hm.trans hcm.symm) ?_
     rw [e.2.2.2.2.2.2.1]
-    intro fr
-    have := hcont (store k :: fr)
-    rw [e.2.2.2.2.2.2.2.2.2]
-    simp only [List.append_assoc, List.singleton_append]
-    rw [this]
+    refine Pre_extend hcont [store k] ?_ e.2.2.2.2.2.2.2.2.2
     cases hs : store k with
     | none => simp [specBody, Task.bst, hov, hdel, expBuffer]
     | some v => simp [specBody, Task.bst, hov, hdel, expBuffer]
   case existsGet k v e =>
     obtain ⟨hm, hcont, hov, hdel⟩ := h
-    subst hm
     rw [taskStep_existsGet _ _ _ _ _ hpc]
+    simp only [List.append_nil]
     have g := setxApply_frame { t with reads := t.reads ++ [store k] } k v e (store k).isSome
     have b := bst_setxApply { t with reads := t.reads ++ [store k] } k v e (store k).isSome
-    refine OWpark_settle now _ _ (g.2.2.2.2.1.trans hc) ?_
+    have hcm : (setxApply { t with reads := t.reads ++ [store k] } k v e (store k).isSome).cmuts = t.cmuts := by
+      unfold setxApply; split <;> rfl
+    refine OWpark_settle now _ _ (g.2.2.2.2.1.trans hc) (hm.trans hcm.symm) ?_
     rw [g.2.2.2.2.2.2.2.2.1]
-    intro fr
-    have := hcont (store k :: fr)
-    rw [b.2, b.1]
-    simp only [List.append_assoc, List.singleton_append]
-    rw [this]
+    refine Pre_extend hcont [store k] ?_ b.2
+    rw [b.1]
     have hov' : t.bst.ov.get k = none := hov
     have hdel' : k ∉ t.bst.del := hdel
     simp only [specBody, hov', hdel', if_false]
     rfl
   case commitDel =>
     obtain ⟨hm, hspec, hdel⟩ := h
-    subst hm
     rw [taskStep_commitDel _ _ _ _ _ hpc]
     dsimp only
     split
     · rename_i hov
-      simp only [OWpark, List.nil_append]
-      exact ⟨by simp [hdel], hspec, hov⟩
+      simp only [OWpark]
+      exact ⟨by simp [hdel, hm], hspec, hov⟩
     · rename_i hov
       refine OWpark_afterCommit hspec ?_
       simp at hov
-      simp [commitMuts, Task.bst, hdel, hov]
+      simp [commitMuts, commitMutsOf, Task.bst, hdel, hov, hm]
   case commitSet =>
     obtain ⟨hm, hspec, hov⟩ := h
     rw [taskStep_commitSet _ _ _ _ _ hpc]
     refine OWpark_afterCommit hspec ?_
     rw [hm]
-    by_cases hd : t.del = [] <;> simp [commitMuts, Task.bst, hov, hd]
+    by_cases hd : t.del = [] <;> simp [commitMuts, commitMutsOf, Task.bst, hov, hd]
   case unlocking ls o =>
     cases ls with
     | nil =>
@@ -374,17 +561,49 @@ theorem OW_taskStep {p0 : List Cmd} {t : Task} {mine : List Mut} (hc : t.ctx = t
       by_cases hr : rest = []
       · simp only [OWpark, hr, if_true]; exact h
       · simp only [OWpark, hr, if_false]; exact h
+  case midDel =>
+    obtain ⟨hm, hpre, hdel⟩ := h
+    rw [taskStep_midDel _ _ _ _ _ hpc]
+    dsimp only
+    split
+    · rename_i hov
+      simp only [OWpark]
+      exact ⟨by simp [hdel, hm], Pre_congr hpre rfl rfl, hov⟩
+    · rename_i hov
+      refine OWpark_afterMid now hc ?_ hpre
+      simp at hov
+      simp [commitMutsOf, hdel, hov, hm]
+  case midSet =>
+    obtain ⟨hm, hpre, hov⟩ := h
+    rw [taskStep_midSet _ _ _ _ _ hpc]
+    refine OWpark_afterMid now hc ?_ hpre
+    rw [hm]
+    by_cases hd : t.del = [] <;> simp [commitMutsOf, hov, hd]
+  case midUnlock ls =>
+    obtain ⟨hm, hpre⟩ := h
+    cases ls with
+    | nil =>
+      rw [taskStep_midUnlock_nil _ _ _ _ _ hpc]
+      simp only [List.append_nil]
+      exact OWpark_settle now _ _ hc hm hpre
+    | cons l rest =>
+      rw [taskStep_midUnlock_cons _ _ _ _ _ hpc]
+      simp only [List.append_nil]
+      by_cases hr : rest = []
+      · simp only [hr, if_true]; exact OWpark_settle now _ _ hc hm hpre
+      · simp only [OWpark, hr, if_false]; exact ⟨hm, Pre_congr hpre rfl rfl⟩
 
 /-- the first step of a transactional task -/
 theorem OW_start {p0 : List Cmd} {t : Task} (hpc : t.pc = .start) (htx : t.isTx = true) (hprog : t.prog = p0)
     (hov : t.ov = []) (hdel : t.del = []) (hres : t.results = []) (hreads : t.reads = [])
+    (hcm : t.cmuts = []) (hpe : t.pend = []) (hci : t.cinc = [])
     (tid now : Nat) (store : Store) (lock : Locks) :
     OWpark p0 (taskStep tid now store lock t).task [] ∧ (taskStep tid now store lock t).muts = [] ∧
     (taskStep tid now store lock t).task.ctx = true := by
   rw [taskStep_start_tx _ _ _ _ _ hpc htx]
-  refine ⟨OWpark_settle now _ _ rfl ?_, rfl, (Frame_settle _ _ _).ctx⟩
-  intro fr
-  simp [Task.bst, hov, hdel, hres, hreads, hprog]
+  refine ⟨OWpark_settle now _ _ rfl (by simp [hcm]) ?_, rfl, (Frame_settle _ _ _).ctx⟩
+  refine ⟨[], by simp [hprog], ?_⟩
+  simp [specBody, Task.bst, hov, hdel, hres, hreads, hcm, hpe, hci]
 
 theorem OW_wake {p0 : List Cmd} {t : Task} {mine : List Mut} (hc : t.ctx = true) (h : OWpark p0 t mine) (now : Nat) :
     OWpark p0 (wake now t) mine := by
@@ -393,16 +612,27 @@ theorem OW_wake {p0 : List Cmd} {t : Task} {mine : List Mut} (hc : t.ctx = true)
   · rename_i w hpc
     split
     · simp only [OWpark, hpc] at h
-      rw [h.1]; exact OWpark_settle now _ _ hc h.2
+      exact OWpark_settle now _ _ hc h.1 h.2
     · exact h
   · rename_i k left w hpc
     split
     · simp only [OWpark, hpc] at h
       split
-      · rw [h.1]; exact OWpark_abort_locked
-      · simp only [OWpark]; exact h
+      · exact OWpark_abort_stop h.1 h.2 _ (Or.inl rfl)
+      · simp only [OWpark]; exact ⟨h.1, Pre_congr h.2 rfl rfl⟩
     · exact h
   · exact h
+
+/-- the task is cancelled while suspended inside its body -/
+theorem OW_cancel {p0 : List Cmd} {t : Task} {mine : List Mut} (h : OWpark p0 t mine) :
+    OWpark p0 (cancelTask t) mine := by
+  unfold cancelTask
+  split
+  all_goals first
+    | exact h
+    | (rename_i hpc; simp only [OWpark, hpc] at h; exact OWpark_abort_stop h.1 h.2.1 _ (Or.inr rfl))
+    | (rename_i hpc; simp only [OWpark, hpc] at h; exact OWpark_abort_stop h.1 h.2 _ (Or.inr rfl))
+    | (rename_i hpc; simp only [OWpark, hpc] at h)
 
 /-- the store mutations made by the steps of task `i` so far, in order -/
 def mineOf (w : World) (i : Nat) : List Mut := (w.log.filter (fun e => e.1 == i)).map (·.2)
@@ -419,7 +649,8 @@ theorem mineOf_runTask_ne (w : World) (tid : Nat) {i : Nat} (h : i ≠ tid) :
 
 /-- the invariant of a transactional task, before and after it entered its block -/
 structure OWfull (p0 : List Cmd) (t : Task) (mine : List Mut) : Prop where
-  pre : t.ctx = false → t.pc = .start ∧ t.prog = p0 ∧ t.ov = [] ∧ t.del = [] ∧ t.results = [] ∧ t.reads = [] ∧ mine = []
+  pre : t.ctx = false → t.pc = .start ∧ t.prog = p0 ∧ t.ov = [] ∧ t.del = [] ∧ t.results = [] ∧ t.reads = [] ∧ mine = [] ∧
+    t.cmuts = [] ∧ t.pend = [] ∧ t.cinc = []
   post : t.ctx = true → OWpark p0 t mine
 
 def World.OwnInv (p0 : Nat → List Cmd) (w : World) : Prop :=
@@ -442,6 +673,28 @@ theorem OwnInv_step (p0 : Nat → List Cmd) (w : World) (a : Act) (h : w.OwnInv 
     · intro hc
       have hc' : (w.tasks i).ctx = true := by rw [← f.2.2.2.2.1]; exact hc
       exact OW_wake hc' (hi.post hc') _
+  | cancel tid =>
+    have hstep : (w.step (.cancel tid)).tasks i = if i = tid then cancelTask (w.tasks i) else w.tasks i := rfl
+    show OWfull (p0 i) ((w.step (.cancel tid)).tasks i) (mineOf w i)
+    rw [hstep] at htx ⊢
+    split
+    · have f := cancel_frame (w.tasks i)
+      rename_i hit
+      rw [if_pos hit] at htx
+      have htx' : (w.tasks i).isTx = true := by rw [← f.1]; exact htx
+      have hi := h i htx'
+      constructor
+      · intro hc
+        have hc' : (w.tasks i).ctx = false := by rw [← f.2.2.2.2.1]; exact hc
+        have hp := hi.pre hc'
+        have : cancelTask (w.tasks i) = w.tasks i := by simp [cancelTask, hp.1]
+        rw [this]; exact hp
+      · intro hc
+        have hc' : (w.tasks i).ctx = true := by rw [← f.2.2.2.2.1]; exact hc
+        exact OW_cancel (hi.post hc')
+    · rename_i hit
+      rw [if_neg hit] at htx
+      exact h i htx
   | run tid =>
     show OWfull (p0 i) ((w.runTask tid).tasks i) (mineOf (w.runTask tid) i)
     by_cases hit : i = tid
@@ -453,8 +706,8 @@ theorem OwnInv_step (p0 : Nat → List Cmd) (w : World) (a : Act) (h : w.OwnInv 
       rw [mineOf_runTask_self]
       simp only [runTask_tasks_self]
       cases hc : (w.tasks i).ctx
-      · obtain ⟨hpc, hprog, hov, hdel, hres, hreads, hm⟩ := hi.pre hc
-        have hs := OW_start hpc htx' hprog hov hdel hres hreads i w.now w.store w.lock
+      · obtain ⟨hpc, hprog, hov, hdel, hres, hreads, hm, hcm, hpe, hci⟩ := hi.pre hc
+        have hs := OW_start hpc htx' hprog hov hdel hres hreads hcm hpe hci i w.now w.store w.lock
         rw [hm, hs.2.1]
         exact ⟨fun hc' => (by rw [hs.2.2] at hc'; cases hc'), fun _ => hs.1⟩
       · have := OW_taskStep hc (hi.post hc) i w.now w.store w.lock
@@ -480,7 +733,7 @@ theorem OwnInv_init (store : Store) (ts : List Task) (hf : ∀ t ∈ ts, t.Fresh
   · have f := hf t ht
     simp only [hp]
     rw [e]
-    exact ⟨fun _ => ⟨f.pc, rfl, f.ov, f.del, f.results, f.reads, rfl⟩, fun hc => by rw [f.ctx] at hc; cases hc⟩
+    exact ⟨fun _ => ⟨f.pc, rfl, f.ov, f.del, f.results, f.reads, rfl, f.cmuts, f.pend, f.cinc⟩, fun hc => by rw [f.ctx] at hc; cases hc⟩
   · rw [e] at htx; simp [Task.inert] at htx
 
 theorem own_run (store : Store) (ts : List Task) (hf : ∀ t ∈ ts, t.Fresh) (sched : List Act) :
@@ -514,6 +767,12 @@ theorem taskStep_store (tid now : Nat) (store : Store) (lock : Locks) (t : Task)
     cases ls with
     | nil => rw [taskStep_unlocking_nil _ _ _ _ _ hpc]; rfl
     | cons l rest => rw [taskStep_unlocking_cons _ _ _ _ _ hpc]; rfl
+  case midDel => rw [taskStep_midDel _ _ _ _ _ hpc]; rfl
+  case midSet => rw [taskStep_midSet _ _ _ _ _ hpc]; rfl
+  case midUnlock ls =>
+    cases ls with
+    | nil => rw [taskStep_midUnlock_nil _ _ _ _ _ hpc]; rfl
+    | cons l rest => rw [taskStep_midUnlock_cons _ _ _ _ _ hpc]; rfl
 
 theorem store_eq_log_run (store : Store) (ts : List Task) (sched : List Act) :
     ((World.init store ts).run sched).store =
@@ -522,6 +781,7 @@ theorem store_eq_log_run (store : Store) (ts : List Task) (sched : List Act) :
   intro w a h
   cases a with
   | adv d => exact h
+  | cancel tid => exact h
   | run tid =>
     show (w.runTask tid).store = ((w.runTask tid).log.map (·.2)).foldl Mut.apply store
     simp only [runTask_store, runTask_log, List.map_append, List.foldl_append, List.map_map]
@@ -536,6 +796,11 @@ theorem isTx_run (store : Store) (ts : List Task) (sched : List Act) (i : Nat) :
   intro w a h
   cases a with
   | adv d => exact (wake_frame (w.now + d) (w.tasks i)).1.trans h
+  | cancel tid =>
+    show (if i = tid then cancelTask (w.tasks i) else w.tasks i).isTx = _
+    split
+    · exact (cancel_frame (w.tasks i)).1.trans h
+    · exact h
   | run tid =>
     show ((w.runTask tid).tasks i).isTx = _
     by_cases hi : i = tid
